@@ -28,8 +28,10 @@ pub struct Doc {
 pub const LEADING: [&str; 4] = ["", "# l\n", "\n", "# l\n\n"];
 pub const NAMES_ALT: [&str; 5] = ["X-y", "a.b+c~1", "A#b", "0", "[x]"];
 pub const COLONS: [&str; 5] = [": ", ":", ":\t", ":  ", ":\t "];
-pub const FIRSTS: [&str; 13] = ["v", "v w", "é ü", "", "#x", ":x", "a: b", "x\ty", "v  ", "日本語 😀", "v\u{a0}w\t", "ends:", "\u{202e}rtl"];
-pub const CONTS: [&str; 10] = ["", "w", "é", ".", "a:b", ":x", "-x", "w  ", "😀 z\tq", "<blank>"]; // "" = absent; "<blank>" = a continuation line holding nothing but its indentation
+pub const FIRSTS: [&str; 15] = ["v", "v w", "é ü", "", "#x", ":x", "a: b", "x\ty", "v  ", "日本語 😀", "v\u{a0}w\t", "ends:", "\u{202e}rtl",
+    // white space that is not a blank or a tab at both ends of the line (only blanks and tabs are layout)
+    "\u{a0}v\u{3000}", "\u{c}v\u{b}"];
+pub const CONTS: [&str; 12] = ["", "w", "é", ".", "a:b", ":x", "-x", "w  ", "😀 z\tq", "\u{a0}w\u{3000}", "\u{c}w\u{85}", "<blank>"]; // "" = absent; "<blank>" = a continuation line holding nothing but its indentation
 pub const INDENTS: [&str; 4] = [" ", "\t", "   ", " \t"];
 pub const SEPS: [&str; 3] = ["\n", "\n\n", "\n# s\n\n"];
 pub const TRAILING: [&str; 4] = ["", "\n", "# t\n", "\n# t\n"];
@@ -37,7 +39,7 @@ pub const TRAILING: [&str; 4] = ["", "\n", "# t\n", "\n# t\n"];
 pub const FIELD_SLOTS: usize = 8;
 // per field: comments (0, 1, 2 plain ones; 3 without blank after '#'; 4 a commented-out field; 5 non-ASCII with trailing blanks; 6 a bare '#'),
 // name, colon, first, cont1, ind1, cont2, ind2
-const FIELD_MENUS: [usize; FIELD_SLOTS] = [7, 7, 5, 13, 10, 4, 10, 4];
+const FIELD_MENUS: [usize; FIELD_SLOTS] = [7, 7, 5, FIRSTS.len(), CONTS.len(), 4, CONTS.len(), 4];
 
 pub fn menus(sk: Skel) -> Vec<usize> {
     let mut m = vec![LEADING.len()];
